@@ -100,6 +100,78 @@ func c16Flag(op string, mask, f, a uint8) string {
 	if after != before {
 		return "CPU: state outside GPR changed"
 	}
+	if m := c16History(op, mask, f, a); m != "" {
+		return m
+	}
+	return ""
+}
+
+type nopMem struct{ code [4]uint8 }
+
+func (m *nopMem) Get(a uint16) uint8 { return m.code[a&3] }
+func (m *nopMem) Set(uint16, uint8)  {}
+
+// c16History: the accessors act on the CPU value they are called on and on its current F, whatever that
+// value has been through: it may be a struct copy of a CPU on which accessors were called before, and it
+// may have executed instructions (EX AF,AF' swaps the register contents; F is still cpu.AF.Lo).
+func c16History(op string, mask, f, a uint8) string {
+	if (uint16(mask)*7+uint16(f)*13+uint16(a))%16 != 0 {
+		return "" // one combination in 16 (every mask meets many F / A values)
+	}
+	anyBit := f&mask != 0
+	wantF := f
+	switch op {
+	case "SetFlag":
+		wantF = f | mask
+	case "ResetFlag":
+		wantF = f &^ mask
+	}
+	apply := func(c *z80.CPU) bool {
+		switch op {
+		case "GetFlag":
+			return c.GetFlag(z80.Flag(mask))
+		case "SetFlag":
+			c.SetFlag(z80.Flag(mask))
+		default:
+			c.ResetFlag(z80.Flag(mask))
+		}
+		return false
+	}
+	// (a) a copy of a CPU value that has been used before
+	var first z80.CPU
+	first.AF.Hi, first.AF.Lo = ^a, ^f
+	first.GetFlag(z80.Flag(mask))
+	first.SetFlag(z80.Flag(mask & 0x55))
+	first.ResetFlag(z80.Flag(mask & 0xAA))
+	second := first // struct copy
+	firstF := first.AF.Lo
+	second.AF.Hi, second.AF.Lo = a, f
+	got := apply(&second)
+	if (op == "GetFlag" && got != anyBit) || second.AF.Lo != wantF || second.AF.Hi != a {
+		return fmt.Sprintf("on a copy of a used CPU value: %s gives F=%02x A=%02x result=%v, want F=%02x A=%02x", op, second.AF.Lo, second.AF.Hi, got, wantF, a)
+	}
+	if first.AF.Lo != firstF {
+		return "an accessor called on a copy changed the CPU value it was copied from"
+	}
+	// (b) after the CPU has executed EX AF,AF' (once, twice, three times) and EXX
+	for n := 1; n <= 3; n++ {
+		m := &nopMem{code: [4]uint8{0x08, 0x08, 0x08, 0xD9}}
+		c := z80.CPU{Memory: m}
+		c.Alternate.AF.Hi, c.Alternate.AF.Lo = 0x5A, 0xA5
+		for i := 0; i < n; i++ {
+			c.PC = 0
+			c.Step()
+		}
+		c.PC = 3
+		c.Step() // EXX
+		c.AF.Hi, c.AF.Lo = a, f
+		alt := c.Alternate
+		got := apply(&c)
+		if (op == "GetFlag" && got != anyBit) || c.AF.Lo != wantF || c.AF.Hi != a || c.Alternate != alt {
+			return fmt.Sprintf("after %d x EX AF,AF': %s gives F=%02x A=%02x result=%v (alternate set touched: %v), want F=%02x A=%02x",
+				n, op, c.AF.Lo, c.AF.Hi, got, c.Alternate != alt, wantF, a)
+		}
+	}
 	return ""
 }
 
